@@ -382,6 +382,19 @@ func runMatch(tier string, seed int64) (string, bool) {
 		}
 	})
 	addSample(fmt.Sprintf("Match([%q], Suffix|Smallest, %q)", "a{1}", "a{1}"))
+	// U+FFFD is an ordinary character of the subject (it is also what a decoder
+	// reports for an undecodable byte, so code that tests for it must not treat
+	// the valid character specially)
+	fp := words([]string{"a", "z", "*", "?", "[!a]", "\uFFFD"}, 3)
+	fs := words([]string{"a", "z", "\uFFFD"}, 4)
+	parallel(len(fp), func(i int) {
+		for _, s := range fs {
+			for _, m := range modes {
+				checkMatch([]string{fp[i]}, m, s)
+			}
+		}
+	})
+	addSample(fmt.Sprintf("Match([%q], Suffix|Smallest, %q)", "?*z", "z\uFFFDaz"))
 	// two-pattern lists over a small alphabet
 	p2 := words([]string{"a", "b", "*", "?", "|"}, 2)
 	s2 := words([]string{"a", "b", "|"}, 3)
@@ -401,8 +414,8 @@ func runMatch(tier string, seed int64) (string, bool) {
 		n = 200000
 	}
 	rng := rand.New(rand.NewSource(seed))
-	pieces := []string{"a", "b", "é", "日", "*", "?", "[ab]", "[!a]", "[^b]", "[a-c]", "[[:alpha:]]", "[[:digit:]]", "[]a]", "[a-]", "\\*", "\\?", "\\[", "\\\\", ".", "+", "(", ")", "|", "{", "}", "^", "$", "\n", "x"}
-	subj := []string{"a", "b", "c", "é", "日", "x", "1", "*", "?", "[", "\\", ".", "+", "(", ")", "|", "{", "}", "^", "$", "\n", "]", "-"}
+	pieces := []string{"a", "b", "é", "日", "*", "?", "[ab]", "[!a]", "[^b]", "[a-c]", "[[:alpha:]]", "[[:digit:]]", "[]a]", "[a-]", "\\*", "\\?", "\\[", "\\\\", ".", "+", "(", ")", "|", "{", "}", "^", "$", "\n", "x", "\uFFFD"}
+	subj := []string{"a", "b", "c", "é", "日", "\uFFFD", "x", "1", "*", "?", "[", "\\", ".", "+", "(", ")", "|", "{", "}", "^", "$", "\n", "]", "-"}
 	type rc struct {
 		p, s string
 		m    pattern.Mode
@@ -420,5 +433,5 @@ func runMatch(tier string, seed int64) (string, bool) {
 	}
 	parallel(n, func(i int) { checkMatch([]string{rcs[i].p}, rcs[i].m, rcs[i].s) })
 	addSample(fmt.Sprintf("Match([%q], %d, %q) (random part)", rcs[0].p, rcs[0].m, rcs[0].s))
-	return fmt.Sprintf("exhaustive: single patterns of <= %d symbols over %d, subjects of <= %d over %d, 4 modes; all bracket expressions with optional negation and <= 3 members over {],a,z,*,?,-,!,(,.,\\\\-,\\\\]} alone and followed by * or a, on subjects <= 2 over 14 symbols; all patterns of <= 3 symbols over 8 regexp metacharacters (thorough: <= 4 over 12) plus repetition-like forms such as a{1,} on subjects <= 3 over 5 (thorough: 9); pairs of patterns of <= 2 symbols over {a,b,*,?,|} on subjects <= 3; plus %d seeded random patterns with classes, ranges, multi-byte runes and regexp metacharacters", pl, len(palpha), sl, len(salpha), n), true
+	return fmt.Sprintf("exhaustive: single patterns of <= %d symbols over %d, subjects of <= %d over %d, 4 modes; all bracket expressions with optional negation and <= 3 members over {],a,z,*,?,-,!,(,.,\\\\-,\\\\]} alone and followed by * or a, on subjects <= 2 over 14 symbols; all patterns of <= 3 symbols over 8 regexp metacharacters (thorough: <= 4 over 12) plus repetition-like forms such as a{1,} on subjects <= 3 over 5 (thorough: 9); all patterns of <= 3 symbols over {a,z,*,?,[!a],U+FFFD} on subjects <= 4 over {a,z,U+FFFD}; pairs of patterns of <= 2 symbols over {a,b,*,?,|} on subjects <= 3; plus %d seeded random patterns with classes, ranges, multi-byte runes and regexp metacharacters", pl, len(palpha), sl, len(salpha), n), true
 }
